@@ -142,7 +142,7 @@ func (x *g) nl() string {
 }
 
 var shortNames = strings.Split("e t n s o i a r c l d u h m f p g v b j y _ w x k z q", " ")
-var topNames = []string{"ga", "gb", "gc", "gd", "ge", "gf", "total", "acc", "st", "A", "B", "K", "e", "t", "n", "a", "b", "x", "y", "z", "i"}
+var topNames = []string{"ga", "gb", "gc", "gd", "ge", "gf", "total", "acc", "st", "A", "B", "K", "e", "t", "n", "a", "b", "x", "y", "z", "i", "__proto__"}
 var propNames = []string{"p", "q", "r", "e", "t", "n", "len", "if", "in", "do", "class", "a1", "$k", "_v"}
 
 func (x *g) push(fn bool, info *fnInfo) {
@@ -456,10 +456,80 @@ func (x *g) numExpr(d int) expr {
 		return x.numLeaf()
 	}
 	x.budget--
-	k := x.n("numkind", 27)
+	k := x.n("numkind", 30)
 	switch k {
 	case 0, 1, 2:
 		return x.numLeaf()
+	case 27:
+		// a numeric string as operand of an arithmetic operator: the result is a number, and a + that follows
+		// concatenates with that number, not with the string literal
+		o := []struct {
+			op string
+			p  int
+		}{{"*", 12}, {"/", 12}, {"-", 11}, {"%", 12}, {"+", 11}}[x.n("strarith", 4)]
+		l := x.numExpr(d - 1)
+		lit := x.pick("numstr", []string{"\"2\"", "'3'", "\"10\"", "\"\"", "\"0x10\"", "\" 4 \""})
+		x.feat("arith-numeric-string:" + o.op)
+		if x.chance("numstrleft", 3) {
+			return expr{x.joinBin(lit, o.op, x.par(l, o.p+1)), o.p}
+		}
+		return expr{x.joinBin(x.par(l, o.p), o.op, lit), o.p}
+	case 28:
+		// the same callee in both branches of a conditional
+		fs := x.visible(func(b *binding) bool { return b.typ == tFn && !b.async && !b.generator })
+		callee := x.pick("nullcalleeform", []string{"[null][0]", "undefined"})
+		nullCallee := true
+		if len(fs) > 0 && !x.chance("nullcallee", 4) {
+			callee = x.ref(fs[x.n("condfn", len(fs)-1)])
+			nullCallee = false
+		}
+		c := x.boolExpr(d - 1)
+		form := x.n("condcallform", 4)
+		if !x.es(2020) && form >= 3 {
+			form = 0
+		}
+		if !x.es(2015) && form >= 1 {
+			form = 0
+		}
+		if nullCallee {
+			if !x.es(2020) {
+				return x.numLeaf()
+			}
+			form = 3 + x.n("condnullform", 1)
+		}
+		x.feat(fmt.Sprintf("cond-same-callee:%d", form))
+		arr := func() string { return x.par(x.arrExpr(d-1), 1) }
+		num := func() string { return x.par(x.numExpr(d-1), 1) }
+		var a, b string
+		switch form {
+		case 0:
+			a, b = callee+"("+num()+")", callee+"("+num()+")"
+		case 1:
+			a, b = callee+"(..."+arr()+")", callee+"(..."+arr()+")"
+		case 2:
+			a, b = callee+"(..."+arr()+")", callee+"("+num()+")"
+		case 3:
+			a, b = callee+"?.("+num()+")", callee+"?.("+num()+")"
+		default:
+			a, b = callee+"?.("+num()+")", callee+"("+num()+")"
+		}
+		if nullCallee && form == 4 {
+			b = callee + "?.(" + num() + ")"
+		}
+		return expr{x.par(c, 3) + x.s() + "?" + x.s() + a + x.s() + ":" + x.s() + b, 2}
+	case 29:
+		if x.es(2015) && !x.guard("noMathRewrites") {
+			x.feat("math-call-spread")
+			fn := x.pick("mathfn2", []string{"Math.pow", "Math.max", "Math.min"})
+			switch x.n("mathspread", 2) {
+			case 0:
+				return expr{fn + "(..." + x.par(x.arrExpr(d-1), 1) + ")", 16}
+			case 1:
+				return expr{fn + "(..." + x.par(x.arrExpr(d-1), 1) + "," + x.par(x.numExpr(d-1), 1) + ")", 16}
+			default:
+				return expr{fn + "(" + x.par(x.numExpr(d-1), 1) + ",..." + x.par(x.arrExpr(d-1), 1) + ")", 16}
+			}
+		}
 	case 3:
 		return x.log(x.numExpr(d - 1))
 	case 4, 5, 6:
@@ -932,6 +1002,22 @@ func (x *g) objExpr(d int) expr {
 			}
 			fallthrough
 		case 2:
+			if all := x.visible(func(b *binding) bool { return true }); len(all) > 0 && x.chance("samenameprop", 2) {
+				// key and value spelled alike: only a shorthand candidate while the variable keeps its name, and never for __proto__
+				b := all[x.n("samenamevar", len(all)-1)]
+				if b.name == "__proto__" && x.guard("noProtoSameName") {
+					x.prog.Excluded["noProtoSameName"]++
+					parts = append(parts, "q"+x.s()+":"+x.s()+x.ref(b))
+					continue
+				}
+				x.feat("prop-same-name-as-var")
+				if b.name == "__proto__" {
+					x.feat("prop-__proto__")
+				}
+				parts = append(parts, b.name+x.s()+":"+x.s()+x.ref(b))
+				x.prog.Public = append(x.prog.Public, b.name)
+				continue
+			}
 			nv := x.vars(tNum, false)
 			if x.es(2015) && len(nv) > 0 {
 				x.feat("shorthand-prop")
@@ -1003,6 +1089,20 @@ func (x *g) anyExpr(d int) expr {
 			if len(os) > 0 {
 				o := os[x.n("optobj", len(os)-1)]
 				x.feat("optional-chain")
+				if x.chance("optgroup", 3) {
+					// a parenthesised optional chain ends the short-circuit: what follows the group is evaluated (and throws) on a nullish base
+					base := x.ref(o)
+					if x.chance("optnullbase", 2) {
+						base = x.pick("optbase", []string{"[null][0]", "[void 0][0]", "[{p:{q:{r:1}},m(){return{q:2}}}][0]"})
+					}
+					form := x.pick("optgroupform", []string{"(B?.p)[\"q\"]", "(B?.p).q", "(B?.m)()", "(B?.m()).q", "(B?.p.q).r", "(B?.p.q)[\"r\"]", "(B?.p[\"q\"]).r", "(B?.m().q).toFixed()", "(B?.p)?.q", "(B?.[\"p\"]).q", "new (B?.C)", "(B?.p.q)``"})
+					if (strings.HasPrefix(form, "(B?.p.q).") || strings.HasPrefix(form, "(B?.m()).") || strings.HasPrefix(form, "(B?.m().q).") || strings.HasPrefix(form, "(B?.p[\"q\"]).")) && x.guard("noDeepOptionalGroupMember") {
+						x.prog.Excluded["noDeepOptionalGroupMember"]++
+						form = "(B?.p.q)[\"r\"]"
+					}
+					x.feat("optional-chain-group")
+					return expr{strings.Replace(form, "B", base, 1), 16}
+				}
 				switch x.n("optform", 4) {
 				case 0:
 					return expr{x.ref(o) + "?.p", 16}
@@ -1119,6 +1219,27 @@ func (x *g) fnBody(params []string, d int, ret typ, allowExprBody bool, o fnOpts
 		x.feat("function-use-strict")
 		x.strict = true
 		defer func() { x.strict = false }()
+	}
+	if !x.strict && !o.arrow && !o.method && x.chance("nodirective", 12) {
+		// a string statement that is no directive because something precedes it; the function stays sloppy, which
+		// shows in its this value when called plainly
+		x.feat("string-statement-no-directive")
+		nd := x.pick("nodirective2", []string{";\"use strict\";", "0;\"use strict\";", "(\"use strict\");", "\"use strict\"+\"\";", ";;'use strict';", "1?\"use strict\":0;"})
+		if (strings.Contains(nd, "+") || strings.Contains(nd, "?")) && x.guard("noFoldedStringStatement") {
+			x.prog.Excluded["noFoldedStringStatement"]++
+			nd = "{}\"use strict\";"
+		}
+		sb.WriteString(nd)
+		// what follows must not be an expression statement every time: those are merged with the string into one expression
+		switch x.n("nodirectiveobs", 2) {
+		case 0:
+			sb.WriteString("$(this===void 0);")
+		case 1:
+			sb.WriteString("if(this===void 0)$(1);else $(2);")
+		default:
+			x.counter++
+			sb.WriteString(fmt.Sprintf("var sd%d=this===void 0;$(sd%d);", x.counter, x.counter))
+		}
 	}
 	n := x.n("fnstmts", 4)
 	sb.WriteString(x.stmts(n, d-1))
@@ -1654,6 +1775,10 @@ func (x *g) paramList(n int) ([]string, string) {
 		used[nm] = true
 		names = append(names, nm)
 		switch {
+		case x.es(2015) && x.chance("paramdefaulteffect", 8):
+			// an initializer with an effect: it runs whenever the argument is missing, whether or not the parameter is used
+			x.feat("param-default-effect")
+			parts = append(parts, nm+x.s()+"="+x.s()+"$("+x.numLit()+")")
 		case x.es(2015) && i > 0 && x.chance("paramdefault", 5):
 			x.feat("param-default")
 			parts = append(parts, nm+x.s()+"="+x.s()+names[i-1]+"+"+x.numLit())
@@ -1754,6 +1879,7 @@ func (x *g) classDecl(d int) string {
 	nm := x.freshName("class")
 	var sb strings.Builder
 	ext := ""
+	odd := false
 	cs := x.vars(tClass, false)
 	if len(cs) > 0 && x.chance("extends", 3) {
 		x.feat("class-extends")
@@ -1779,6 +1905,18 @@ func (x *g) classDecl(d int) string {
 	if x.es(2022) && x.chance("classfield", 2) {
 		x.feat("class-field")
 		sb.WriteString(x.s() + "fld" + x.s() + "=" + x.s() + x.numLit() + ";")
+		if x.chance("oddfieldname", 3) {
+			// element names that are numbers, strings, computed or keywords, after static and without
+			x.feat("class-odd-element-name")
+			nm := x.pick("oddname", []string{"1", "\"s t\"", "[\"c\"+1]", "static", "get", "async", "0.5", "'q'", "in", "1e3"})
+			st := x.pick("oddstatic", []string{"", "static ", "static\n"})
+			odd = true
+			if x.chance("oddmethod", 3) {
+				sb.WriteString(st + nm + "(){return " + x.numLit() + "}")
+			} else {
+				sb.WriteString(st + nm + x.s() + "=" + x.s() + x.numLit() + ";")
+			}
+		}
 		if x.chance("staticfield", 2) {
 			x.feat("class-static-field")
 			sb.WriteString("static sf=" + x.par(x.log(x.numLeaf()), 1) + ";")
@@ -1793,6 +1931,10 @@ func (x *g) classDecl(d int) string {
 		}
 	}
 	sb.WriteString("}")
+	if odd {
+		// show which own properties the class, its prototype and an instance have
+		sb.WriteString(";$(Object.getOwnPropertyNames(" + nm + ").sort().join()+\"|\"+Object.getOwnPropertyNames(" + nm + ".prototype).sort().join()+\"|\"+Object.keys(new " + nm + "(0)).sort().join())")
+	}
 	x.declare(nm, "class", tClass, false)
 	x.prog.Public = append(x.prog.Public, "m", "g", "s", "p")
 	return sb.String()
